@@ -53,6 +53,22 @@ structure LeafLaws (S : Scalar → Bool) (env : Env) (L : Leaves) : Prop where
   enumRT : ∀ c i w, memberValue env c i = some w →
     umEnum env L c w = .ok (.member c i) ∧ hashable w = true ∧ decode w ≠ .none
 
+/-- A value that is valid for a member naming None (directly or through wrappers) is None. -/
+theorem isNone_hasTypeG (leaf : Scalar → Val → Bool) (lit : List Val → Val → Bool) (env : Env) :
+    ∀ n m v, m.isNone = true → hasTypeG leaf lit env n m v = true → v = .none := by
+  intro n
+  induction n with
+  | zero => intro m v _ h; simp [hasTypeG] at h
+  | succ n ih =>
+    intro m v hm h
+    cases m <;> simp [Ty.isNone] at hm
+    case none =>
+      simp only [hasTypeG] at h
+      cases v <;> simp_all [BEq.beq, Val.beq]
+    case wrap w t =>
+      simp only [hasTypeG] at h
+      exact ih t v hm h
+
 theorem wfTys_mem {S : Scalar → Bool} {env : Env} : ∀ {ts : List Ty}, wfTys S env ts = true → ∀ t ∈ ts, wfTy S env t = true := by
   intro ts
   induction ts with
